@@ -229,6 +229,20 @@ class CallMixin(StmtMixin):
 
     # ----------------------------------------------------------- call_function
     def call_function(self, st: State, fi: FuncInfo, args: list, kwargs: dict, node: Any, ctx: Ctx) -> Res:
+        # functools.singledispatch: the implementation registered for the most specific class of the first argument
+        regs = fi.module.registrations.get(fi.key.split(":")[-1]) if "singledispatch" in (fi.decorators or []) else None
+        if regs and args and isinstance(args[0], Ref) and st.obj(args[0]).kind == "obj" and isinstance(st.obj(args[0]).cls, ClassInfo):
+            mro = st.obj(args[0]).cls.mro()
+            best = None
+            for cexpr, impl in regs:
+                cv = self.eval_const_expr(cexpr, fi.module, node)
+                if isinstance(cv, ClassVal) and cv.info in mro:
+                    rank = mro.index(cv.info)
+                    if best is None or rank < best[0]:
+                        best = (rank, impl)
+            if best is not None:
+                yield from self.call_function(st, best[1], args, kwargs, node, ctx)
+                return
         # dynamic dispatch on the receiver's class where it is known
         c = self.find_contract(fi)
         if fi.is_generator:
